@@ -158,14 +158,21 @@ func nPad(r *rng, n int) string {
 // 16 goes to the full range), URL filler at 160 bytes; the full ranges are exercised by the wire-level families
 // and by the Go-only `assert` ops of the same properties.
 var nTextLevel = func() bool {
-	if len(os.Args) < 3 || os.Args[1] != "gen" {
+	// the family being generated: `harness gen <family> …`, or, in a child process started by a family that isolates
+	// its trials (c13hist.fresh, c14fresh), the family of the parent (VERIF_GEN_FAMILY) -- parent and child must
+	// draw the same sizes, or the child would rebuild another world than the one its parent asked about
+	family := os.Getenv("VERIF_GEN_FAMILY")
+	if len(os.Args) >= 3 && os.Args[1] == "gen" {
+		family = os.Args[2]
+	}
+	if family == "" {
 		return false
 	}
 	// the families measured to be linear on the Lean side; every other family (also those of other properties that
 	// merely share the generators of gen.go / gen_e.go) gets the capped sizes
 	for _, p := range []string{"match", "c04.match", "c04.perm", "c04.collide", "c01.matchall", "c01.hash", "c01.real", "c02.dns", "c05.engine",
 		"c05.maskurl", "c06.", "c07.", "scale"} {
-		if os.Args[2] == p || (strings.HasSuffix(p, ".") && strings.HasPrefix(os.Args[2], p)) {
+		if family == p || (strings.HasSuffix(p, ".") && strings.HasPrefix(family, p)) {
 			return false
 		}
 	}
